@@ -1029,6 +1029,11 @@ type swamp struct {
 	valueBeaconASC  beacon.Beacon // ordered list of the Treasures by the ascendant Value field
 	valueBeaconDESC beacon.Beacon // ordered list of the Treasures by the descendant Value field
 	valueBeaconType atomic.Int32  // BeaconType the value beacons were built (sorted) with; written by buildBeacon, read by concurrent saves
+	// indexBuildMu makes the lazy build of an order index (buildBeacon: mark initialised, fill from a snapshot of
+	// the key index, sort, then the same for the descending half) atomic against the writers that maintain the
+	// built indexes (addTo*Beacon, deleteTreasureIfBeaconInitialized): builders hold it exclusively, maintainers
+	// share it. Neither side waits for a record guard while holding it.
+	indexBuildMu sync.RWMutex
 
 	// -------------------  the following fields are used for the unordered list -------------------
 	// treasuresWaitingForWriter just the key of the treasures that are waiting for the writer to write them to the chroniclerInterface
@@ -3040,6 +3045,8 @@ func (s *swamp) deleteTreasureFromBeacons(key string) {
 
 // deleteTreasureIfBeaconInitialized - delete the key from the beacon only if the beacon is initialized
 func (s *swamp) deleteTreasureIfBeaconInitialized(b beacon.Beacon, key string) {
+	s.indexBuildMu.RLock()
+	defer s.indexBuildMu.RUnlock()
 	if b.IsInitialized() {
 		b.Delete(key)
 	}
@@ -3205,6 +3212,17 @@ func (s *swamp) buildBeacon(beaconASC beacon.Beacon, beaconDESC beacon.Beacon, b
 		return
 	}
 
+	// A save of a new key that lands in the middle of an unprotected build sees the ascending half
+	// initialised and adds the record to BOTH halves; beacon.Add marks the still empty descending half
+	// initialised, the build then skips filling it, and every descending read of that index misses all
+	// earlier records until the swamp closes. (The same window duplicates or resurrects records in the
+	// ascending half.) Builders therefore exclude the index maintainers, and each other.
+	s.indexBuildMu.Lock()
+	defer s.indexBuildMu.Unlock()
+	if beaconASC.IsInitialized() && beaconDESC.IsInitialized() {
+		return
+	}
+
 	if beaconASC == s.valueBeaconASC {
 		s.valueBeaconType.Store(int32(bc))
 	}
@@ -3300,6 +3318,8 @@ func (s *swamp) buildBeacon(beaconASC beacon.Beacon, beaconDESC beacon.Beacon, b
 }
 
 func (s *swamp) addToKeyBeacon(treasureInterface treasure.Treasure) {
+	s.indexBuildMu.RLock()
+	defer s.indexBuildMu.RUnlock()
 	// check if the index is already built
 	// if not, then we don't need to add the treasures to the index
 	if !s.keyBeaconASC.IsInitialized() {
@@ -3320,6 +3340,8 @@ func (s *swamp) addToKeyBeacon(treasureInterface treasure.Treasure) {
 // addToCreationTimeBeacon - add the treasures to the creationTimeBeaconASC and creationTimeBeaconDESC slices if the treasure
 // is not already in the slices
 func (s *swamp) addToCreationTimeBeacon(treasureInterface treasure.Treasure) {
+	s.indexBuildMu.RLock()
+	defer s.indexBuildMu.RUnlock()
 	// check if the index is already built
 	// if not, then we don't need to add the treasures to the index
 	if !s.creationTimeBeaconASC.IsInitialized() {
@@ -3337,6 +3359,8 @@ func (s *swamp) addToCreationTimeBeacon(treasureInterface treasure.Treasure) {
 	}
 }
 func (s *swamp) addToUpdateTimeBeacon(treasureInterface treasure.Treasure) {
+	s.indexBuildMu.RLock()
+	defer s.indexBuildMu.RUnlock()
 	// check if the index is already built
 	// if not, then we don't need to add the treasures to the index
 	if !s.updateTimeBeaconASC.IsInitialized() {
@@ -3355,6 +3379,8 @@ func (s *swamp) addToUpdateTimeBeacon(treasureInterface treasure.Treasure) {
 
 }
 func (s *swamp) addToExpirationTimeBeacon(treasureInterface treasure.Treasure) {
+	s.indexBuildMu.RLock()
+	defer s.indexBuildMu.RUnlock()
 	// check if the index is already built
 	// if not, then we don't need to add the treasures to the index
 	if !s.expirationTimeBeaconASC.IsInitialized() {
@@ -3374,6 +3400,8 @@ func (s *swamp) addToExpirationTimeBeacon(treasureInterface treasure.Treasure) {
 
 }
 func (s *swamp) addToValueBeacon(treasureInterface treasure.Treasure) {
+	s.indexBuildMu.RLock()
+	defer s.indexBuildMu.RUnlock()
 	// check if the index is already built
 	// if not, then we don't need to add the treasures to the index
 	if !s.valueBeaconASC.IsInitialized() {
